@@ -266,6 +266,19 @@ func runC09(c *Ctx) {
 			c.Stat("near_miss_extension_names")
 		}
 	}
+	// the request id is the peer's choice and has no bearing on what a request does: the same refusals for id 0 and 2^32-1
+	for _, rid := range []uint32{0, 0xffffffff} {
+		try(&sftp.VerifPacket{Kind: "mkdir", ID: rid, S1: newp, HasRaw: true}, rawMkdir(rid, newp), true, "rid")
+		try(&sftp.VerifPacket{Kind: "remove", ID: rid, S1: f}, rawPathOp(fxpRemove, rid, f), true, "rid")
+		try(&sftp.VerifPacket{Kind: "rename", ID: rid, S1: f, S2: newp}, rawTwoPath(fxpRename, rid, f, newp), true, "rid")
+		try(&sftp.VerifPacket{Kind: "symlink", ID: rid, S1: f, S2: newp}, rawTwoPath(fxpSymlink, rid, f, newp), true, "rid")
+		blk := attrBlock(4, 0, 0, 0, 0o100600, 0, 0)
+		try(&sftp.VerifPacket{Kind: "setstat", ID: rid, S1: f, N2: 4, HasRaw: true, Raw: blk}, rawSetstat(rid, f, 4, blk), true, "rid")
+		closeIfHandle(try(&sftp.VerifPacket{Kind: "open", ID: rid, S1: newp, N1: 0x1a, HasRaw: true}, rawOpen(rid, newp, 0x1a, 0, nil), true, "rid"))
+		try(&sftp.VerifPacket{Kind: "hardlink", ID: rid, S1: f, S2: newp}, rawExtended(rid, "hardlink@openssh.com", (&rb{}).str(f).str(newp).b), true, "rid")
+		try(&sftp.VerifPacket{Kind: "posixrename", ID: rid, S1: f, S2: newp}, rawExtended(rid, "posix-rename@openssh.com", (&rb{}).str(f).str(newp).b), true, "rid")
+		c.Stat("requests_with_extreme_ids")
+	}
 	if c.Thorough() {
 		// random sequences of the above kinds
 		for i := 0; i < 3000; i++ {
